@@ -65,10 +65,11 @@ pub fn replay_lockstep(reg: &dyn Registry, r: &serde_json::Value) -> i32 {
     let Some(ty) = reg.get(tname) else { return 2 };
     let seed = unhex(r.get("seed").and_then(|s| s.as_str()).unwrap_or(""));
     let steps = r.get("steps").and_then(|s| s.as_u64()).unwrap_or(1) as usize;
-    let res = if let Some(kind) = refmodels::xoshiro::Kind::from_name(tname) {
-        c01::lockstep(ty, kind, &seed, steps).map_err(|e| e.0)
+    let res = if let Some(model) = c01::RefModel::for_type(tname) {
+        c01::lockstep_model(ty, model, &seed, steps).map_err(|e| e.0)
     } else {
-        Err("no lock-step replayer for this type".to_string())
+        println!("no lock-step reference for this type");
+        return 2;
     };
     match res {
         Ok(n) => {
